@@ -72,6 +72,9 @@ typedef of_2d_parity_cb_t cb_t;
 #ifndef OFV_API
 #define OFV_API 0
 #endif
+/* the 2D codec's bulk API only stores private copies of the supplied symbols; all decoding happens in of_finish_decoding (C16 speaks about the
+ * outcome after finish only; the peeling-closure and pointer-identity clauses are LDPC-Staircase clauses: C04, C10) */
+#define LAZY_BULK (OFV_CODEC == 5 && OFV_API == 2)
 
 UINT8 in_src[K][LEN];
 
@@ -298,8 +301,8 @@ int main(void)
 		ENSURES(st == OF_STATUS_OK, "set_available.returns_ok");
 		for (i = 0; i < NN; i++)	/* the bulk API submits the table in increasing ESI order */
 			if (tab[i] != NULL) {
-				if (i < K && !((spec_peel(received) >> i) & 1u)) { first_ptr[i] = tab[i]; submitted_unknown |= 1u << i; }
-				spec_note_arrival(received, i);
+				if (!LAZY_BULK && i < K && !((spec_peel(received) >> i) & 1u)) { first_ptr[i] = tab[i]; submitted_unknown |= 1u << i; }
+				if (!LAZY_BULK) spec_note_arrival(received, i);
 				received |= 1u << i;
 			}
 		for (i = 0; i < NN; i++) ENSURES(tab[i] == tab0[i], "frame.application_table_not_written");
@@ -307,28 +310,32 @@ int main(void)
 		REQUIRES(of_get_source_symbols_tab(ses, out) == OF_STATUS_OK);
 		complete = of_is_decoding_complete(ses) ? 1 : 0;
 		for (avail = 0, c = 0; c < K; c++) if (out[c] != NULL) avail |= 1u << c;
-		/* the bulk API submits the symbols one by one to the peeling engine: same closure */
-		ENSURES(avail == (closure & ALL_SRC), "stream.available_iff_in_peeling_closure");
-		ENSURES(complete == ((closure & ALL_SRC) == ALL_SRC), "stream.complete_iff_closure_has_all_sources");
+		/* the LDPC bulk API submits the symbols one by one to the peeling engine: same closure */
+		if (!LAZY_BULK) {
+			ENSURES(avail == (closure & ALL_SRC), "stream.available_iff_in_peeling_closure");
+			ENSURES(complete == ((closure & ALL_SRC) == ALL_SRC), "stream.complete_iff_closure_has_all_sources");
+		} else {
+			ENSURES(avail == (received & ALL_SRC), "bulk2d.available_are_the_supplied_sources");
+		}
 		was_complete = complete;
 		for (c = 0; c < K; c++)
 			if (out[c] != NULL)
 				for (b = 0; b < LEN; b++) ENSURES(((UINT8 *)out[c])[b] == in_src[c][b], "sound.available_source_is_the_encoded_one");
-		check_engine_invariants((of_linear_binary_code_cb_t *)ses, complete);
+		if (!LAZY_BULK) check_engine_invariants((of_linear_binary_code_cb_t *)ses, complete);
 	}
 #endif
 	closure = spec_peel(received);
 #if OFV_FINISH
 	{
 		int determined = spec_full_rank(((1u << NN) - 1u) & ~received);
-		UINT32 avail_before = closure & ALL_SRC;
+		UINT32 avail_before = LAZY_BULK ? (received & ALL_SRC) : (closure & ALL_SRC);
 		st = of_finish_decoding(ses);
 		REQUIRES(of_get_source_symbols_tab(ses, out) == OF_STATUS_OK);
 		complete = of_is_decoding_complete(ses) ? 1 : 0;
 		for (avail = 0, c = 0; c < K; c++) if (out[c] != NULL) avail |= 1u << c;
 		spec_decoded |= avail & ~avail_before;
 		ENSURES((avail == ALL_SRC) == (determined != 0), "finish.recovers_all_iff_uniquely_determined");
-		if (!determined) ENSURES(!complete && avail == avail_before, "finish.incomplete_otherwise");
+		if (!determined) ENSURES(!complete && (LAZY_BULK ? (avail & ~(closure & ALL_SRC)) == 0 : avail == avail_before), "finish.incomplete_otherwise");
 		ENSURES(complete == (avail == ALL_SRC), "complete.iff_all_sources_available");
 		ENSURES(complete || !was_complete, "complete.never_reverts");
 		ENSURES((st == OF_STATUS_OK) == (complete != 0), "finish.ok_iff_complete_afterwards");
